@@ -59,8 +59,6 @@ def reviewedUnwrapped : List WrapRow := [
   ("Array.notifyParentIfNeeded", "func", "parentUpdater", "raw"),
   -- exported helper that the CALLER's StorableDecoder calls for the compact-map tag; the error goes back through the caller's decoder to a library call site of `StorableDecoder`, all of which wrap (rows below). Its twins DecodeInlinedArrayStorable / DecodeInlinedMapStorable wrap at once (observation: inconsistent, harmless)
   ("DecodeInlinedCompactMapStorable", "func", "StorableDecoder", "raw"),
-  -- NOT JUSTIFIED - the code as it is: map.go `OrderedMap.Iterator` returns the error of the first key's `StoredValue` as it is (finding F7 of known_findings.txt, W1 of INTEGRATION-fx13.md: a failing caller-supplied key storable surfaces uncategorised from the mutable map iterator constructor; every other `StoredValue` site wraps)
-  ("OrderedMap.Iterator", "MapKey", "StoredValue", "raw"),
   -- as Array.String
   ("OrderedMap.String", "MapIterator", "Next", "other:err.Error()"),
   -- as Array.notifyParentIfNeeded
@@ -149,6 +147,8 @@ def requiredWrapped : List WrapRow := [
   ("NewStorableSlab", "SlabStorage", "GenerateSlabID", "wrapErrorfAsExternalErrorIfNeeded"),
   ("OrderedMap.CopyNonRefSimple", "SlabStorage", "GenerateSlabID", "wrapErrorfAsExternalErrorIfNeeded"),
   ("OrderedMap.Get", "Storable", "StoredValue", "wrapErrorfAsExternalErrorIfNeeded"),
+  -- was finding F7 (returned raw until the `fix:` commit that wraps it in /repo)
+  ("OrderedMap.Iterator", "MapKey", "StoredValue", "wrapErrorfAsExternalErrorIfNeeded"),
   ("OrderedMap.IterateReadOnlyLoadedValues", "func", "MapEntryIterationFunc", "wrapErrorAsExternalErrorIfNeeded"),
   ("OrderedMap.get", "DigesterBuilder", "Digest", "wrapErrorfAsExternalErrorIfNeeded"),
   ("OrderedMap.get", "Digester", "Digest", "wrapErrorfAsExternalErrorIfNeeded"),
@@ -256,7 +256,7 @@ set_option maxRecDepth 100000 in
           providers, the decoder callbacks) whose error is not handed to
           `wrapError[f]AsExternalErrorIfNeeded` are exactly the entries of `reviewedUnwrapped`, in
           source order, with multiplicity;
-      (3) every row of `requiredWrapped` (132 call sites, among them every site the sweeps s3 / s4
+      (3) every row of `requiredWrapped` (133 call sites, among them every site the sweeps s3 / s4
           mutated) is present and wrapped. -/
 theorem caller_errors_are_wrapped : wrapOk Gen.pkgClosedInterfaceTypes Gen.errWrapSites = true := by decide
 
